@@ -8,9 +8,15 @@ from vlib import *
 ID = "C36"
 COQ_FILES = ["Common/Corr.v", "Model/Canon.v", "Proofs/Canon.v", "Props/C36.v"]
 PROPS = "Props/C36.v"
+# "asis" = the six-key comparison of the pinned code; "repaired" = after the proposed tie-break repair of
+# Canonicalize (two more keys: level, then Diagnostic.tieBreak; Model/Canon.v dcmp2). Flip the default when
+# the repair is committed to /repo.
+MODEL = os.environ.get("VERIF_C36_MODEL", "asis")
+assert MODEL in ("asis", "repaired")
 THEOREMS = ["C36_canon_rel_total", "C36_canon_idempotent", "C36_canon_idempotent_unique", "C36_canonicalize_idempotent",
             "C36_canon_idempotent_needs_no_sentinel", "C36_canon_perm_invariant", "C36_canon_perm_invariant_needs_injective",
-            "C36_run_report_order_independent"]
+            "C36_run_report_order_independent",
+            "C36_canon_perm_invariant_repaired", "C36_canon_idempotent_repaired", "C36_run_report_order_independent_repaired"]
 AXIOMS_OK = []
 TRUSTED = ["hand-written Gallina model of Report.Canonicalize (Model/Canon.v): the sort is a relation (any sorted permutation), "
            "marking and deletion are functions as written",
@@ -314,6 +320,8 @@ def run(ctx):
         files, diags = lists[li]
         keys = [keyt(files, d) for d in diags]
         injective = len(set(keys)) == len(keys)
+        if MODEL == "repaired":   # the repaired comparison separates any two entries unless one path has two File objects
+            injective = injective or len({f["path"] for f in files}) == len(files)
         nosent = all(d["level"] != -1 for d in diags)
         if not injective:
             n_tie_lists += 1
@@ -331,13 +339,14 @@ def run(ctx):
                     ctx.violation("canonicalize-not-idempotent", "a second Canonicalize changes the report",
                                   {"files": files, "diags": i["diags"], "once": o["out"], "twice": o["twice"]})
                     break
+    ctx.extra["model"] = MODEL
     ctx.extra["canon_lists"] = len(lists)
     ctx.extra["canon_lists_with_key_ties"] = n_tie_lists
     ctx.sample(ins[0])
     ctx.sample(ins[min(len(ins) - 1, 40)])
     header = ("From Coq Require Import List ZArith NArith Bool.\nImport ListNotations.\n"
               "From PV Require Import Common.Corr Model.Canon.\nOpen Scope Z_scope.\n")
-    mism, err = coq_eval_mismatches("cases_C36", header, terms, "canon_chk", shard_size=ctx.budget(90, 800))
+    mism, err = coq_eval_mismatches("cases_C36", header, terms, "canon_chk" if MODEL == "asis" else "canon_chk_repaired", shard_size=ctx.budget(90, 800))
     if err:
         raise RuntimeError(err)
     for k in mism:
